@@ -2,6 +2,7 @@ package main
 
 import (
 	"fmt"
+	"go/ast"
 	"go/types"
 	"strings"
 )
@@ -52,6 +53,145 @@ func checkC22(c *Check) {
 		c.Ob("tl2-printer/parsed-field-is-printed", f, ok, "", fmt.Sprintf("written by %s; read by formatter function %s", a.written[f], orStr(reads[f], "— none —")))
 	}
 	c.Floor("tl2-printer/parsed-field-is-printed", 20)
+	// (3) idempotence, necessary condition: comment text the formatter consults survives its own output. A comment field
+	// that is read (for a layout decision, say) but never written out is gone after the first pass, so the second pass
+	// decides differently and the text changes.
+	tl2ConsultedCommentsArePrinted(c, a)
 	printerOrderFollowsParserRule(c, a.r, a.pkg, tl2Family, "tl2-printer/field-order-follows-parser")
 	c.Floor("tl2-printer/field-order-follows-parser", 5)
+}
+
+// tl2ConsultedCommentsArePrinted: every comment field of a TL2 AST node that a function reachable from TL2File.Print reads
+// also reaches a strings.Builder write in such a function (directly or through locals: Split, TrimSpace, range).
+func tl2ConsultedCommentsArePrinted(c *Check, a *astCoverage) {
+	root := a.p.funcByName("github.com/VKCOM/tl/internal/tlast", "TL2File", "Print")
+	reach := map[string]bool{}
+	for fn := range a.p.reachable(root) {
+		top := fn
+		for top.Parent() != nil {
+			top = top.Parent()
+		}
+		if obj, _ := top.Object().(*types.Func); obj != nil {
+			reach[obj.FullName()] = true
+		}
+	}
+	readBy := map[string]string{}
+	printed := map[string]bool{}
+	for _, name := range sortedKeys(a.r.funcs) {
+		fi := a.r.funcs[name]
+		if fi.Decl.Body == nil || !reach[fi.Obj.FullName()] {
+			continue
+		}
+		info := fi.Pkg.TypesInfo
+		commentField := func(n ast.Node) string {
+			sel, ok := n.(*ast.SelectorExpr)
+			if !ok {
+				return ""
+			}
+			sl, ok := info.Selections[sel]
+			if !ok || sl.Kind() != types.FieldVal || !strings.Contains(sel.Sel.Name, "Comment") || !isStringType(sl.Type()) {
+				return ""
+			}
+			st := namedStructName(info.TypeOf(sel.X))
+			if !tl2Structs[st] {
+				return ""
+			}
+			return st + "." + sel.Sel.Name
+		}
+		taint := map[types.Object]map[string]bool{}
+		labels := func(e ast.Node) map[string]bool {
+			out := map[string]bool{}
+			if e == nil {
+				return out
+			}
+			ast.Inspect(e, func(n ast.Node) bool {
+				if f := commentField(n); f != "" {
+					out[f] = true
+					if _, seen := readBy[f]; !seen || fi.Name() < readBy[f] {
+						readBy[f] = fi.Name()
+					}
+				}
+				if id, ok := n.(*ast.Ident); ok {
+					for l := range taint[info.Uses[id]] {
+						out[l] = true
+					}
+				}
+				return true
+			})
+			return out
+		}
+		add := func(lhs ast.Expr, ls map[string]bool) bool {
+			id, ok := lhs.(*ast.Ident)
+			if !ok || len(ls) == 0 {
+				return false
+			}
+			obj := info.Defs[id]
+			if obj == nil {
+				obj = info.Uses[id]
+			}
+			if obj == nil {
+				return false
+			}
+			changed := false
+			if taint[obj] == nil {
+				taint[obj] = map[string]bool{}
+			}
+			for l := range ls {
+				if !taint[obj][l] {
+					taint[obj][l] = true
+					changed = true
+				}
+			}
+			return changed
+		}
+		for changed := true; changed; {
+			changed = false
+			ast.Inspect(fi.Decl.Body, func(n ast.Node) bool {
+				switch st := n.(type) {
+				case *ast.AssignStmt:
+					for i, l := range st.Lhs {
+						r := st.Rhs[min(i, len(st.Rhs)-1)]
+						// only text flows: a comparison or a length is a decision, not the comment
+						if tv, ok := info.Types[r]; ok && !isStringType(tv.Type) {
+							if _, isSl := tv.Type.Underlying().(*types.Slice); !isSl {
+								continue
+							}
+						}
+						if add(l, labels(r)) {
+							changed = true
+						}
+					}
+				case *ast.RangeStmt:
+					if st.Value != nil && add(st.Value, labels(st.X)) {
+						changed = true
+					}
+				}
+				return true
+			})
+		}
+		ast.Inspect(fi.Decl.Body, func(n ast.Node) bool {
+			labels(n) // records reads
+			call, ok := n.(*ast.CallExpr)
+			if !ok {
+				return true
+			}
+			sel, ok := call.Fun.(*ast.SelectorExpr)
+			if !ok || !strings.HasPrefix(sel.Sel.Name, "Write") {
+				return true
+			}
+			if nm := namedOf(info.TypeOf(sel.X)); nm == nil || nm.Obj().Name() != "Builder" || nm.Obj().Pkg() == nil || nm.Obj().Pkg().Path() != "strings" {
+				return true
+			}
+			for _, arg := range call.Args {
+				for l := range labels(arg) {
+					printed[l] = true
+				}
+			}
+			return false
+		})
+	}
+	for _, f := range sortedKeys(readBy) {
+		c.Ob("tl2-printer/consulted-comment-is-printed", f, printed[f], "", fmt.Sprintf("read by %s (a function reachable from TL2File.Print); written to the output somewhere: %v", readBy[f], printed[f]))
+	}
+	c.Floor("tl2-printer/consulted-comment-is-printed", 3)
 }
